@@ -522,8 +522,16 @@ Definition obr (b : branch_st) : obs :=
   end.
 Definition otree (t : option tree) : obs :=
   oopt (fun t => OL [olist onat (t_parents t); olist onat (t_changes t)]) t.
+(* a working tree can only be opened (observed) when its branch's repository can *)
+Definition branch_usable (w : world) : bool :=
+  match w_branch w with
+  | BLocal _ => is_some (find_repo w)
+  | BRef l => match get_other w l with Some o => is_some (place_revs w l o) | None => false end
+  | BNone => true
+  end.
 Definition oworld (w : world) : obs :=
-  OL [orepo (w_g w) (w_repo w); orepo (w_g w) (w_outer w); obr (w_branch w); otree (w_tree w);
+  OL [orepo (w_g w) (w_repo w); orepo (w_g w) (w_outer w); obr (w_branch w);
+      (if branch_usable w then otree (w_tree w) else ON);
       obranch_obs (w_g w) (w_inner w); obranch_obs (w_g w) (w_sib w); obranch_obs (w_g w) (w_far w)].
 Definition oplan (p : plan) : obs :=
   OL [obool (p_unbind p); obool (p_bind p); obool (p_destroy_reference p); obool (p_create_reference p);
